@@ -20,6 +20,7 @@
 #include "core/tbfparticlescontainer.hpp"
 #include "core/tbfparticlesorter.hpp"
 #include "core/tbftree.hpp"
+#include "core/tbftreetsm.hpp"
 #include "algorithms/tbfalgorithmutils.hpp"
 #include "algorithms/sequential/tbfalgorithm.hpp"
 #include "kernels/testkernel/tbftestkernel.hpp"
@@ -87,21 +88,25 @@ static uint64_t fnv(const unsigned char* p, size_t n, uint64_t h = 1469598103934
     return h;
 }
 
-static void dumpLeaves(Tree& tree){
-    // one line per leaf: index, box coordinate, sorted original indices; one line per particle: data bit patterns
+template <class T> static std::string toHexAny(T v){ return toHex<T>(v); }
+
+// one line per leaf: index, box coordinate, sorted original indices; one line per particle: data bit patterns
+// (printed in the type the values are actually stored with)
+template <class ParticleGroups>
+static void dumpLeavesOf(ParticleGroups& pgroups, const std::string& prefix){
     std::map<long, std::string> perParticle;
     long gi = 0;
-    for(auto& g : tree.getParticleGroups()){
+    for(auto& g : pgroups){
         for(long lf = 0 ; lf < g.getNbLeaves() ; ++lf){
             std::vector<long> ps(g.getParticleIndexes(lf), g.getParticleIndexes(lf) + g.getNbParticlesInLeaf(lf));
             const auto data = g.getParticleData(lf);
             for(long p = 0 ; p < g.getNbParticlesInLeaf(lf) ; ++p){
-                std::ostringstream os; os << "P " << ps[p] << " " << g.getLeafSpacialIndex(lf);
-                for(long k = 0 ; k < NbData ; ++k) os << " " << toHex<DataType>(data[k][p]);
+                std::ostringstream os; os << prefix << "P " << ps[p] << " " << g.getLeafSpacialIndex(lf);
+                for(long k = 0 ; k < NbData ; ++k) os << " " << toHexAny(data[k][p]);
                 perParticle[ps[p]] = os.str();
             }
             std::sort(ps.begin(), ps.end());
-            std::cout << "LF " << gi << " " << g.getLeafSpacialIndex(lf);
+            std::cout << prefix << "LF " << gi << " " << g.getLeafSpacialIndex(lf);
             for(long d = 0 ; d < Dim ; ++d) std::cout << " " << g.getLeafBoxCoord(lf)[d];
             std::cout << " :";
             for(long p : ps) std::cout << " " << p;
@@ -111,6 +116,8 @@ static void dumpLeaves(Tree& tree){
     }
     for(auto& kvp : perParticle) std::cout << kvp.second << "\n";
 }
+
+static void dumpLeaves(Tree& tree){ dumpLeavesOf(tree.getParticleGroups(), ""); }
 
 static void dumpGroups(Tree& tree){
     for(long l = 0 ; l < tree.getHeight() ; ++l){
@@ -193,6 +200,15 @@ int main(){
             cs.tree.reset(new Tree(*cs.config, cs.particles, kv(ts, "bs", 1), kv(ts, "mode", 0) != 0));
         }
         else if(op == "dump" && ts[1] == "leaves"){ dumpLeaves(*cs.tree); }
+        else if(op == "dump" && ts[1] == "tsmleaves"){
+            // the same particles as the source set and as the target set of a target/source tree: what each side stores
+#if NRHS > 0
+            using TreeTsm = TbfTreeTsm<RealType, DataType, NbData, long int, NbRhs, Multipole, Local, SpaceIndex>;
+            std::unique_ptr<TreeTsm> tsm(new TreeTsm(*cs.config, cs.particles, cs.particles, kv(ts, "bs", 1), kv(ts, "mode", 0) != 0));
+            dumpLeavesOf(tsm->getParticleGroupsSource(), "s");
+            dumpLeavesOf(tsm->getParticleGroupsTarget(), "t");
+#endif
+        }
         else if(op == "dump" && ts[1] == "groups"){ dumpGroups(*cs.tree); }
         else if(op == "dump" && ts[1] == "zero"){ dumpZero(*cs.tree); }
         else if(op == "dump" && ts[1] == "rhs"){ dumpRhs(*cs.tree); }
